@@ -248,11 +248,12 @@ Lemma sys_step_inv s e :
            valid_seqb (r_tasks r) (sync_form ops) = true
        | _ => True
        end
+   | EForeign ops => valid_seqb (applyl ∅ (concat (chain (srv s)))) ops = true
    | _ => True
    end) ->
   Inv (sys_step' s e).
 Proof.
-  intros [Hsrv Hn] Hwf. destruct e as [i ops|i avoid wst|i g|i|i g]; cbn [sys_step].
+  intros [Hsrv Hn] Hwf. destruct e as [i ops|i avoid wst|i g|i|i g|fops]; cbn [sys_step].
   - (* commit *)
     destruct (nodes s !! i) as [[r [x|]]|] eqn:Ei; try (split; assumption).
     pose proof (Forall_lookup_1 _ _ _ _ Hn Ei) as [(R1 & R2 & R3) _]. cbn in R1, R2, R3.
@@ -298,6 +299,13 @@ Proof.
     { destruct S3 as [->|[o ->]]; [exact HR|apply rep_inv_snoc; exact HR]. }
     split; [exact S1|]. cbn [srv nodes].
     apply Forall_insert_node; [exact Hn'|]. split; [exact HR'|exact I].
+  - (* a foreign version *)
+    destruct Hsrv as [Hc Hs]. split; cbn [srv nodes chain snap].
+    + split.
+      * apply chain_valid_snoc; [exact Hc|]. rewrite cstate_all. exact Hwf.
+      * destruct (snap (srv s)) as [[v d]|]; [|exact I]. destruct Hs as [Hv Hd].
+        cbn [snap chain]. rewrite app_length. cbn. split; [lia|]. rewrite cstate_snoc by lia. exact Hd.
+    + eapply Forall_impl; [exact Hn|]. intros n. apply node_inv_snoc.
 Qed.
 
 Lemma Inv_init n : Inv (sys0 n).
@@ -313,7 +321,7 @@ Proof.
   - exact HI.
   - cbn [wf_history] in Hwf. apply andb_true_iff in Hwf. destruct Hwf as [He Hh].
     apply IH; [|exact Hh]. apply sys_step_inv; [exact HI|].
-    destruct e; try exact I.
+    destruct e; try exact I; [|exact He].
     destruct (nodes s !! i) as [[r [x|]]|]; auto.
 Qed.
 
